@@ -28,7 +28,9 @@ var c18Stateful = lexer.MustSimple([]lexer.SimpleRule{
 })
 
 type c18Grammar struct {
-	V []string `@(String | RawString | Char | Ident | Int)*`
+	Pos    lexer.Position
+	EndPos lexer.Position
+	V      []string `@(String | RawString | Char | Ident | Int)*`
 }
 
 type c18Mapper struct {
@@ -364,6 +366,19 @@ func checkC18(c *c18Case, r *vstat.Run) outcome {
 			if strings.Join(ast.V, "\x00") != strings.Join(wantVals, "\x00") || len(ast.V) != len(wantVals) {
 				return violationf("captured", "%s: %s captured %q, want %q", desc, entry, ast.V, wantVals)
 			}
+			// positions are the lexer's, whatever the mappers made of the token texts: the node ends where the next
+			// raw token of the unmapped stream begins
+			last := -1
+			for i, tk := range base.toks {
+				if !tk.EOF() && typeName(def, tk.Type) != "WS" {
+					last = i
+				}
+			}
+			if last >= 0 && last+1 < len(base.toks) {
+				if wantEnd := base.toks[last+1].Pos; ast.EndPos != wantEnd {
+					return violationf("node-pos", "%s: %s: the node's EndPos is %v, the token after its last one starts at %v", desc, entry, ast.EndPos, wantEnd)
+				}
+			}
 		}
 	}
 	return outcome{}
@@ -461,6 +476,14 @@ func TestC18(t *testing.T) {
 				sep = rapid.SampledFrom([]string{" ", "  ", "\n", " \t"}).Draw(t, "sep")
 			}
 			c.Seps = append(c.Seps, sep)
+		}
+		if c.Lexer == "scanner" && rapid.IntRange(0, 5).Draw(t, "ctrl") == 0 {
+			// a raw control character is a token of its own under the text/scanner lexer; its type is the character
+			// (+1 .. +8), the mirror image of the symbolic types -1 .. -8
+			at := rapid.IntRange(0, len(c.Items)).Draw(t, "ctrlat")
+			ch := string(rune(rapid.IntRange(1, 8).Draw(t, "ctrlchar")))
+			c.Items = append(c.Items[:at:at], append([]string{ch}, c.Items[at:]...)...)
+			c.Seps = append(c.Seps[:at:at], append([]string{" "}, c.Seps[at:]...)...)
 		}
 		// mappers: disjoint selections for Unquote and Upper, optionally a recorder
 		lits := []string{"String", "RawString", "Char"}
